@@ -316,4 +316,6 @@ def extra(tier, seed):
                 "ops": [{"op": "fill", "entries": ent[: k // 2], "as": "list"}, {"op": "read", "what": "underflow"},
                         {"op": "fill", "entries": ent[k // 2:], "as": "list"}, {"op": "read", "what": "all"}]}
         out["failures"].append({"sub": "ops", "case": case, "facet": "exhaustive-enumeration", "detail": str(f)})
-    return out
+    from ..fuzz import thorough_extra
+
+    return thorough_extra(PROPERTY, [("ops", 30000, 16)], tier, seed, base=out)
